@@ -198,6 +198,24 @@ func (e *engine) doStep(st Step) {
 			err = e.pg.JRbPage(g.P)
 		case "JFinal":
 			err = e.pg.JFinal()
+		case "JFinalFail":
+			// the publication of the transaction fails: the rename of the LTX file is refused (what a refused
+			// forwarded commit or a full disk amounts to); SQLite gets an error from the finalisation
+			prev := e.node.OS.Before
+			e.node.OS.Before = func(ev sim.OSEvent) error {
+				if ev.Call == "Rename" && strings.HasPrefix(ev.Label, "COMMITJOURNAL") {
+					return fmt.Errorf("injected: rename refused")
+				}
+				if prev != nil {
+					return prev(ev)
+				}
+				return nil
+			}
+			ferr := e.pg.JFinal()
+			e.node.OS.Before = prev
+			if ferr == nil {
+				e.nonconf("JFinalFail: the finalisation succeeded although the rename of the LTX file was refused")
+			}
 		case "JTrunc":
 			err = e.pg.JTrunc(g.N)
 		case "WHdr":
